@@ -414,10 +414,15 @@ def write_json(path: str, obj: Any):
 
 
 def _shrink(prop: Property, case: Any, ctx: Ctx, pred: Callable[[Outcome], bool],
-            budget_s: float = 60.0) -> (Any, Outcome):
+            budget_s: float = 60.0, out0: Optional[Outcome] = None) -> (Any, Outcome):
   """Greedy delta-debugging using the property's shrink candidates."""
   best = case
   best_out = guarded_evaluate(prop, case, ctx)
+  if not pred(best_out) and out0 is not None:
+    # the failure does not reproduce on re-evaluation (it depends on something outside the case, e.g. a
+    # temporary directory name): keep the failure that was observed, unshrunk
+    out0.detail = {'note': 'not reproduced when the same case was evaluated again; unshrunk', 'detail': out0.detail}
+    return case, out0
   t_end = time.time() + budget_s
   improved = True
   while improved and time.time() < t_end:
@@ -544,7 +549,7 @@ def run_check(prop: Property, tier: str, replay: Optional[str] = None) -> int:
   if oracle_failures:
     case, out = oracle_failures[0]
     try:
-      case, out = _shrink(prop, case, ctx, lambda o: bool(o.oracle_fail) and o.key == out.key)
+      case, out = _shrink(prop, case, ctx, lambda o, k=out.key: bool(o.oracle_fail) and o.key == k, out0=out)
     except InfraError:
       pass
     rp = os.path.join('replays', f'{pid}-{case_digest(case)}.json')
@@ -562,7 +567,7 @@ def run_check(prop: Property, tier: str, replay: Optional[str] = None) -> int:
     if corr_failures:
       case, out = corr_failures[0]
       try:
-        case, out = _shrink(prop, case, ctx, lambda o: bool(o.corr_fail))
+        case, out = _shrink(prop, case, ctx, lambda o: bool(o.corr_fail), out0=out)
       except InfraError:
         pass
       what['correspondence_not_checked'] = {'case': case, 'disagreement': out.corr_fail,
